@@ -216,6 +216,16 @@ def one_case(col: Collector, rng, index: int):
         dtype = rng.choice(["int64", "float64"])
         k = rng.randint(1, 5)
         raws = [gen_array(rng, np, shape, dtype) for _ in range(k)]
+        mixed = bk == "arrayapi" and len(shape) >= 1 and k >= 2 and rng.random() < 0.25
+        if mixed:
+            # arguments of different but broadcastable shapes and of different element types: the backend stacks what
+            # np.broadcast_arrays gives, in the promoted type
+            raws = []
+            for j in range(k):
+                shp = tuple(1 if (rng.random() < 0.4 and d > 1) else d for d in shape)
+                dt = rng.choice(["int8", "int64", "float32", "float64", "int64"])
+                raws.append(gen_array(rng, np, shp, "float64" if dt.startswith("float") else "int64").astype(dt) * (0.5 if dt.startswith("float") else 1))
+            col.count("stack_mixed_shape_dtype_cases")
         ax = rng.randrange(len(shape) + 1)
         ax_arg = ax - (len(shape) + 1) if rng.random() < 0.3 else ax
         if ax_arg < 0:
@@ -226,7 +236,9 @@ def one_case(col: Collector, rng, index: int):
                 got = backends.stack(*raws, axis=ax_arg)
             else:
                 got = backends.stack(*[Wds(r) for r in raws], dim="new", axis=ax_arg)
-            exp = [np.stack(v, axis=ax_arg) for v in variables(raws)]
+            exp = [np.stack(np.broadcast_arrays(*v) if mixed else v, axis=ax_arg) for v in variables(raws)]
+            if mixed and hasattr(got, "dtype") and got.dtype != exp[0].dtype:
+                report("stack", "dtype-differs-from-numpy", f"result dtype {got.dtype}, NumPy gives {exp[0].dtype} for argument dtypes {[str(r.dtype) for r in raws]}", extra)
         except Exception as e:  # noqa: BLE001
             report("stack", f"raises-{type(e).__name__}", f"{e!r:.200}", extra)
         else:
